@@ -14,8 +14,8 @@
 // error handler h; ehLast(h): the error the handler returned last.
 package buffer
 
-//@ ghost crPos(ref) int
-//@ ghost crClosed(ref) int
+// (crPos and crClosed are declared with the io.Reader contract in
+// /verif/contracts/io.spec, which every check loads.)
 //@ ghost ehErrors(ref) int
 //@ ghost ehDone(ref) int
 //@ ghost ehLast(ref) int
@@ -36,12 +36,40 @@ package buffer
 //@   modifies nothing
 //@   ensures result != nil && fresh(result) && crPos(result) == off && crClosed(result) == 0
 
+// ---- skipping to an offset in a chunked stream
+// After a successful discard the consumer's next byte — the first byte of the
+// returned remainder, or of the next chunk — is exactly off bytes further on.
+//@ func discardFromChunkReader
+//@   requires r != nil
+//@   modifies srcCount(r), srcEOF(r), crPos(r)
+//@   ensures [negative-offset-refused] old(off) < 0 ==> result1 != nil
+//@   ensures [skips-exactly-off] result1 == nil ==> crPos(r) - len(result0) == old(crPos(r)) + old(off)
+//@   loop 0 invariant off >= 0 && crPos(r) + off == old(crPos(r)) + old(off)
+
+// newOffsetChunkReader owns r from here on: on failure it closes it and hands
+// back an error reader; otherwise r itself or a wrapper that first replays the
+// remainder of the chunk that straddled the offset.
+//@ pure ocrPos(x) = crPos(x.ChunkReader) - len(x.prefix)
+//@ func newOffsetChunkReader
+//@   requires r != nil && crClosed(r) == 0
+//@   modifies srcCount(r), srcEOF(r), crPos(r), crClosed(r)
+//@   ensures result != nil
+//@   ensures [closed-on-failure] result != r && typeis(result, "buffer.errorChunkReader") ==> crClosed(r) == 1
+//@   ensures [kept-open-otherwise] result == r || !typeis(result, "buffer.errorChunkReader") ==> crClosed(r) == 0
+//@         && (result == r || typeis(result, "*buffer.offsetChunkReader"))
+//@   ensures [positioned] result == r && !typeis(result, "buffer.errorChunkReader") ==> crPos(r) == old(crPos(r)) + off
+//@ func (*offsetChunkReader).Read
+//@   requires r.ChunkReader != nil
+//@   modifies r.prefix, srcCount(r.ChunkReader), srcEOF(r.ChunkReader), crPos(r.ChunkReader)
+//@   ensures [same-position] result1 == nil ==> ocrPos(r) == old(ocrPos(r)) + len(result0)
+//@   ensures [nothing-on-error] result1 != nil ==> ocrPos(r) == old(ocrPos(r)) && len(result0) == 0
+
 // ---- errorHandlingChunkReader
 //@ pure ehcWF(r) = r.r != nil && r.errorHandler != nil && crPos(r.r) == r.off && crClosed(r.r) == 0
 //@ typeinv errorHandlingChunkReader(r) = ehcWF(r)
 //@ func newErrorHandlingChunkReader
 //@   requires b != nil && errorHandler != nil
-//@   ensures result != nil && tinv(result)
+//@   ensures result != nil && tinv(result) && typeis(result, "*buffer.errorHandlingChunkReader")
 //@ func (*errorHandlingChunkReader).Read
 //@   requires ehcWF(r) && r.off >= 0
 //@   modifies r.r, r.off, crPos, srcCount, srcEOF, crClosed, ehErrors(r.errorHandler), ehLast(r.errorHandler)
@@ -61,12 +89,38 @@ package buffer
 //@   ensures [handler-finished-once] ehDone(r.errorHandler) == old(ehDone(r.errorHandler)) + 1
 //@   ensures [stream-closed] crClosed(r.r) == 1
 
+// ---- casErrorHandlingBuffer: whole-object conversions retry on the
+// replacement; every error is offered to the handler exactly once and the
+// handler is finished exactly once.
+// An attempt reads through the buffer it is given; it does not touch the
+// error handling buffer itself (its results go to variables it captured).
+//@ iface ehAttempt.call
+//@   modifies nothing
+//@ func (*casErrorHandlingBuffer).tryRepeatedly
+//@   opt funcparam f=ehAttempt
+//@   requires b.errorHandler != nil && b.base != nil && f != nil
+//@   modifies ehErrors(b.errorHandler), ehLast(b.errorHandler), ehDone(b.errorHandler)
+//@   ensures [handler-finished-once] ehDone(b.errorHandler) == old(ehDone(b.errorHandler)) + 1
+//@   ensures [handlers-error-is-reported] result != nil && result != io.EOF ==> result == ehLast(b.errorHandler)
+//@         && ehErrors(b.errorHandler) > old(ehErrors(b.errorHandler))
+//@   loop 0 invariant unchanged(b.errorHandler) && base != nil && ehDone(b.errorHandler) == old(ehDone(b.errorHandler))
+//@         && ehErrors(b.errorHandler) >= old(ehErrors(b.errorHandler))
+//@ func (*casErrorHandlingBuffer).Discard
+//@   requires b.errorHandler != nil && b.base != nil
+//@   ensures [handler-finished-once] ehDone(b.errorHandler) == old(ehDone(b.errorHandler)) + 1
+//@ func (*casErrorHandlingBuffer).toUnvalidatedChunkReader
+//@   requires b.errorHandler != nil && b.base != nil
+//@   ensures result != nil && tinv(result) && typeis(result, "*buffer.errorHandlingChunkReader")
+//@ func (*casErrorHandlingBuffer).toUnvalidatedReader
+//@   requires b.errorHandler != nil && b.base != nil
+//@   ensures result != nil && tinv(result) && typeis(result, "*buffer.errorHandlingReader")
+
 // ---- errorHandlingReader
 //@ pure ehrWF(r) = r.r != nil && r.errorHandler != nil && crPos(r.r) == r.off && crClosed(r.r) == 0
 //@ typeinv errorHandlingReader(r) = ehrWF(r)
 //@ func newErrorHandlingReader
 //@   requires b != nil && errorHandler != nil
-//@   ensures result != nil && tinv(result)
+//@   ensures result != nil && tinv(result) && typeis(result, "*buffer.errorHandlingReader")
 //@ func (*errorHandlingReader).Read
 //@   requires ehrWF(r) && r.off >= 0
 //@   ensures [resumes-where-the-consumer-stands] result1 == nil || result1 == io.EOF ==> ehrWF(r)
